@@ -4,7 +4,7 @@ CONSTANTS
   JAllowFallsThrough = FALSE
   TBlockInverted = FALSE
   TNo172 = FALSE
-  Devs = {"ipv6-internal-destination-routed", "unsupported-allow-item-raises"}
+  Devs = {"ipv6-internal-destination-routed", "unsupported-allow-item-raises", "empty-allow-list-value-routes-nothing"}
   Tier = "quick"
   Impl = "java"
 SPECIFICATION Spec
